@@ -278,6 +278,11 @@ func TestVerifC10(t *testing.T) {
 			if corpus == "repetitive" && len(in) > 20000 {
 				in = in[:20000]
 			}
+			if corpus == "small-synthetic" && len(in) > 200000 {
+				// the license itself is a corpus document here: keep self-similar megabyte
+				// inputs for the embedded and the degenerate corpora
+				in = in[:200000]
+			}
 			cs.hostileInput(in)
 			var c *Classifier
 			switch corpus {
